@@ -239,6 +239,9 @@ func (r *Report) Finish(kf *KnownFindings, evidencePath string, seed int) int {
 		"trusted_base":    []string{"go/types", "go/ssa (x/tools v0.29.0)", "library summaries listed under assumptions"},
 		"exhaustive":      false,
 	}
+	if r.Assumptions == nil {
+		r.Assumptions = []string{"library summaries named in the rule texts"}
+	}
 	ev := map[string]interface{}{
 		"property_id": r.Prop,
 		"tier":        r.Tier,
